@@ -277,8 +277,11 @@ class Prov:
         if lid in self._memo:
             return self._memo[lid]
         if lid in visiting:
+            # cycle cut: results computed above this point are partial and must not be memoised
+            self._cuts = getattr(self, "_cuts", 0) + 1
             return frozenset()
         visiting.add(lid)
+        cuts0 = getattr(self, "_cuts", 0)
         out = set()
         if lid in self.params:
             out.add(("param", self.params[lid]))
@@ -288,7 +291,8 @@ class Prov:
                 out |= self.atoms(src, visiting)
         visiting.discard(lid)
         res = frozenset(out)
-        if not visiting:
+        if not visiting or getattr(self, "_cuts", 0) == cuts0:
+            # complete: no cycle was cut while computing it (or we are back at the top)
             self._memo[lid] = res
         return res
 
